@@ -4,6 +4,7 @@ import (
 	"context"
 	"errors"
 	"fmt"
+	"math"
 	"net"
 	"os"
 	"path/filepath"
@@ -50,8 +51,13 @@ type Script struct {
 	// context.Background(), otherwise a context with this deadline.
 	How   string `json:"how,omitempty"`
 	CtxMs int    `json:"ctx_ms,omitempty"`
-	Dir   string `json:"dir,omitempty"` // "s2r" (stub to runtime) or "r2s", for cut
-	K     int    `json:"k,omitempty"`
+	// ErrConn (unreachable): what the failing dialer returns BESIDE its error: "" = nil,
+	// "typed-nil-tolerant" = a nil pointer of a connection type whose methods tolerate a nil
+	// receiver, "typed-nil" = (*net.UnixConn)(nil) (what `return net.DialUnix(...)` yields),
+	// "dead" = a non-nil connection that is closed.
+	ErrConn string `json:"err_conn,omitempty"`
+	Dir     string `json:"dir,omitempty"` // "s2r" (stub to runtime) or "r2s", for cut
+	K       int    `json:"k,omitempty"`
 	// CloseAfter: the refusing peer also closes the connection right after refusing.
 	CloseAfter bool `json:"close_after,omitempty"`
 	DropMs     int  `json:"drop_ms,omitempty"` // regdrop
@@ -203,8 +209,8 @@ func measureHandshake() handshake {
 // Timeout values a raw runtime puts into its ConfigureRequest (ms): unset, tiny, a few hundred
 // ms, the defaults, very large, negative.
 var (
-	regMsDomain = []int64{0, 0, 1, 300, 300, 5000, 3600000, 1000000000000, -5}
-	reqMsDomain = []int64{0, 1, 300, 2000, 2000, 3600000, -5}
+	regMsDomain = []int64{0, 0, 1, 300, 300, 5000, 3600000, 1000000000000, -5, math.MaxInt64, math.MaxInt64/1000000 + 1, 1 << 62}
+	reqMsDomain = []int64{0, 1, 300, 2000, 2000, 3600000, -5, math.MaxInt64, 1 << 62}
 )
 
 var unreachableWays = []string{"absent", "stale-socket", "regular-file", "directory", "custom-refused", "custom-timedout"}
@@ -250,6 +256,7 @@ func genScript(t *rapid.T, h handshake, est *int64, plug string) *Script {
 	case "unreachable":
 		s.How = rapid.SampledFrom(unreachableWays).Draw(t, "how")
 		s.CtxMs = rapid.SampledFrom([]int{0, 0, 0, 50, 500}).Draw(t, "ctx_ms")
+		s.ErrConn = rapid.SampledFrom([]string{"", "", "typed-nil-tolerant", "typed-nil", "dead"}).Draw(t, "err_conn")
 	case "healthy":
 		s.Activate = rapid.IntRange(0, 2).Draw(t, "activate") > 0
 		*est = rtRegTimeout.Milliseconds()
@@ -630,7 +637,16 @@ func (x *exec) dial(string) (net.Conn, error) {
 		x.mu.Lock()
 		x.pending = sc
 		x.mu.Unlock()
-		return x.dialUnreachable(sc.How, n)
+		_, err := x.dialUnreachable(sc.How, n)
+		switch sc.ErrConn {
+		case "typed-nil-tolerant":
+			return (*deadConn)(nil), err
+		case "typed-nil":
+			return (*net.UnixConn)(nil), err
+		case "dead":
+			return &deadConn{}, err
+		}
+		return nil, err
 	}
 	var a, b net.Conn
 	var err error
@@ -728,6 +744,18 @@ func (x *exec) runHook(kind string) {
 		_ = x.st.RequestTimeout()
 	}
 }
+
+// deadConn is a connection that is closed; its methods tolerate a nil receiver.
+type deadConn struct{}
+
+func (c *deadConn) Read([]byte) (int, error)         { return 0, net.ErrClosed }
+func (c *deadConn) Write([]byte) (int, error)        { return 0, net.ErrClosed }
+func (c *deadConn) Close() error                     { return nil }
+func (c *deadConn) LocalAddr() net.Addr              { return &net.UnixAddr{Name: "dead", Net: "unix"} }
+func (c *deadConn) RemoteAddr() net.Addr             { return &net.UnixAddr{Name: "dead", Net: "unix"} }
+func (c *deadConn) SetDeadline(time.Time) error      { return nil }
+func (c *deadConn) SetReadDeadline(time.Time) error  { return nil }
+func (c *deadConn) SetWriteDeadline(time.Time) error { return nil }
 
 // dialUnreachable produces the error of a runtime that is not there, in one of several ways;
 // wherever the kernel can say it, the kernel does.
@@ -965,6 +993,9 @@ func (x *exec) doStart(sc Script) *failure {
 			if sc.CtxMs > 0 {
 				x.classes["unreachable:ctx-deadline"] = true
 			}
+			if sc.ErrConn != "" {
+				x.classes["unreachable:dialer-returns-"+sc.ErrConn] = true
+			}
 		}
 	}
 	if sc.Kind == "cut" {
@@ -1059,14 +1090,18 @@ func (x *exec) doStart(sc Script) *failure {
 				x.classes["send:"+sd.Req] = true
 				x.classes["send-at:"+sd.At] = true
 			}
+			// D22 / D27: whatever a runtime announces (nothing, a negative value, a value too
+			// large for a Duration), the stub keeps a positive timeout
+			if now := x.st.RegistrationTimeout(); now <= 0 {
+				return hard("after a session whose runtime sent RegistrationTimeout=%d the stub's RegistrationTimeout() is %v: a later Start can only fail", sc.RegMs, now)
+			}
+			if sc.RegMs > math.MaxInt64/1000000 {
+				x.classes["raw:reg-overflowing"] = true
+			}
 			switch {
 			case sc.RegMs <= 0:
 				x.classes["raw:reg<=0"] = true
 				x.unsetSeen = true
-				// D22: such a session leaves the stub's timeouts as they were
-				if now := x.st.RegistrationTimeout(); now <= 0 {
-					return hard("after a session whose runtime sent RegistrationTimeout=%d the stub's RegistrationTimeout() is %v: a later Start can only fail", sc.RegMs, now)
-				}
 			case sc.RegMs < 1000:
 				x.classes["raw:reg-short"] = true
 			case sc.RegMs > 5000:
